@@ -25,6 +25,11 @@ UB_TEMPLATES = ('arrhenius', 'eyring', 'eyringhs', 'gibbs', 'radiolytic', 'param
                 'rxn_arr', 'rxn_eyr')
 # reported to the coordinator (math.exp of an unsimplified kJ/J quantity); remove a name to activate its math-backend variant
 UNITS_PENDING_MATH = ()     # (was ('param_eyr',) until a388a51: eyring_equation simplifies dS/R before exp)
+API_TEMPLATES = ('arg_by_name', 'eq', 'rate_coeff', 'named_keys', 'ma_from_callback', 'ma_subclass_from_callback', 'uw_from_callback',
+                 'uw_nargs', 'init_refusals', 'g_value', 'equilibrium', 'gibbs_equilibrium', 'eq_from_callback', 'rxn_param_expr',
+                 'rxn_param_str', 'rxn_param_number')
+SYMPY_OPERANDS = ('symbol', 'float', 'add2', 'mul2', 'mulfloat', 'pow', 'powfloat', 'mul3', 'integer', 'rational', 'nested', 'left')
+SYMPY_PENDING = ()            # (was ('pow',) until the fix of _implicit_conversion(sympy.Pow): _PowExpr([base, exp]))
 DROPS = ('Poly', 'Piecewise', 'GibbsEqConst', 'EyringHS', 'Radiolytic')
 NEEDS_RXN = ('MassAction', 'Eyring', 'EyringHS')
 
@@ -204,6 +209,8 @@ class Gen:
         if rng.random() > p_over or nargs == 0:
             return None
         m = rng.randint(1, nargs)
+        if rng.random() < 0.04:
+            m = min(nargs + 1, 4)          # more unique keys than arguments: ValueError of Expr.__init__ (fixed-arity classes)
         keys = rng.sample(['k1', 'k2', 'k3', 'k4'], min(m, 4))
         for k in keys:
             if rng.random() < 0.5:
@@ -224,7 +231,7 @@ class Gen:
                 choices += ['Eyring', 'EyringHS', 'arrp', 'MAEyr'] + (['eyrp'] if q_ok else [])
         c = rng.choice(choices)
         if c == 'Poly':
-            param = self.var(rng.choice(['x', 'temperature', 'temperature']))
+            param = self.var(rng.choice(['x', 'temperature', 'temperature', 'log10_temperature']))
             recip, shift = rng.random() < 0.35, rng.random() < 0.35
             n = rng.randint(0 if (rng.random() < 0.03 and not self.no_empty) else 1, 4)
             args = [self.arg(depth) for _ in range(n + (1 if shift else 0))]
@@ -271,6 +278,8 @@ class Gen:
                     for _ in range(n - on_bound):
                         bounds.append(float('%.6g' % (bounds[-1] + rng.uniform(0.3, 2) * abs(xv))))
                     bj = list(bounds)
+            if rng.random() < 0.03:
+                return {'t': 'new', 'k': {'c': 'Piecewise', 'param': param}, 'args': {'l': [{'t': 'num', 'v': bj[0]}]}, 'uk': None}, 'A'   # < 3 entries
             if rng.random() < 0.12:              # out of every interval -> ValueError
                 bj = [rat_json(Fraction(*b) + 1000 if isinstance(b, list) else b + 1000) if rat else b + 1000 for b in bj]
                 on_bound = None
@@ -310,6 +319,8 @@ class Gen:
                 # (`other == other*0` in Expr.__sub__): keep the bare rate constant an int
                 a = ({'t': 'num', 'v': rng.choice([1, 2, 3, 5, -2])}, 'I')
             ty = Q if (self.has_rxn and self.rxn) else a[1]
+            if rng.random() < 0.08:         # MassAction('name'): a str argument is wrapped into a tuple and looked up in the variables
+                return {'t': 'new', 'k': {'c': 'MassAction'}, 'args': {'s': {'t': 'str', 'v': self.var(rng.choice(['x', 'y']))}}, 'uk': None}, Q
             if a[0]['t'] != 'str' and rng.random() < 0.4:
                 return {'t': 'new', 'k': {'c': 'MassAction'}, 'args': {'s': a[0]}, 'uk': None}, ty
             return self.new('MassAction', [a], ty)
@@ -408,6 +419,10 @@ class Gen:
         if o == 'pow':
             return self.power(a, ta, depth)
         b, tb = self.operand(depth - 1, q2)
+        if o in ('div', 'mul') and rng.random() < 0.12:
+            b, tb = {'t': 'num', 'v': 1 if self.mode == 'rat' else 1.0}, ('I' if self.mode == 'rat' else 'F')    # x / 1, x * 1 return x
+            if self.mode == 'rat' and o == 'div':
+                return {'t': 'op', 'o': o, 'a': a, 'b': b}, ta
         if rng.random() < 0.45:
             a, ta, b, tb = b, tb, a, ta                # reflected forms / Expr on the right
         if self.mode == 'rat':
@@ -430,6 +445,9 @@ class Gen:
 
     def power(self, a, ta, depth):
         rng = self.rng
+        if self.mode == 'rat' and rng.random() < 0.2:     # int ** Constant(non-negative int): Expr.__rpow__, exact
+            return ({'t': 'op', 'o': 'pow', 'a': {'t': 'num', 'v': rng.choice([2, 3, -2])},
+                     'b': {'t': 'new', 'k': {'c': 'Constant'}, 'args': {'s': {'t': 'num', 'v': rng.choice([0, 1, 2, 3])}}, 'uk': None}}, 'I')
         if self.mode == 'rat':
             e = rng.choice([0, 1, 2, 3, 2, -1, -2]) if ta == 'Q' else rng.choice([0, 1, 2, 3])
             if rng.random() < 0.5:
@@ -442,7 +460,7 @@ class Gen:
         if rng.random() < 0.6:
             b = {'t': 'num', 'v': float(rng.choice([0, 1, 2, 3, -1, -2]))}
             return {'t': 'op', 'o': 'pow', 'a': a, 'b': b}, 'F'
-        if rng.random() < 0.3:                         # number ** Expr
+        if rng.random() < 0.55:                        # number ** Expr  (Expr.__rpow__)
             base = {'t': 'num', 'v': float('%.4g' % rng.uniform(0.5, 3))}
             small = self.leaf_node()[0]
             return {'t': 'op', 'o': 'pow', 'a': base, 'b': small}, 'F'
@@ -473,7 +491,7 @@ class Gen:
             self.var('x')
             w = {'t': 'new', 'k': {'c': 'Poly', 'param': 'x', 'recip': False, 'shift': False},
                  'args': {'l': [kval, {'t': 'num', 'v': 1 if rat else 1.0}]}, 'uk': [key]}
-        if rng.random() < 0.6 or w['args'] is None:
+        if rng.random() < 0.6 or (w['args'] is None and rng.random() < 0.8):       # (fk without its key: KeyError 'Unique key missing')
             self.vars[key] = rat_json(self.q()) if rat else float('%.6g' % rng.uniform(0.5, 9))
         o = rng.choice(['mul', 'mul', 'div', 'div', 'add', 'sub', 'pow', 'neg'])
         if o == 'neg':
@@ -488,8 +506,8 @@ class Gen:
             a, b = (w, other) if (rng.random() < 0.55 or o == 'pow') else (other, w)
             if rat and o == 'div' and a['t'] == 'num' and b is w:
                 a = self.leaf_pos()[0]
-            if rat and o == 'div' and b['t'] == 'num':
-                b = self.leaf_pos()[0]          # keep the exact mode free of int / int
+            if rat and o == 'div' and b['t'] == 'num' and b['v'] != 1:
+                b = self.leaf_pos()[0]          # keep the exact mode free of int / int (w / 1 returns w)
             prog = {'t': 'op', 'o': o, 'a': a, 'b': b}
             if rng.random() < 0.3:                 # one more level: (w op x) op' y
                 prog = {'t': 'op', 'o': rng.choice(['mul', 'add', 'sub']), 'a': prog, 'b': self.leaf_pos()[0]}
@@ -601,14 +619,25 @@ class Real:
         if c == 'Poly':
             key = ('Poly', k['param'], bool(k['recip']), bool(k['shift']))
             if key not in self.poly:
-                cl = E.create_Poly(k['param'], reciprocal=bool(k['recip']), shift='shift' if k['shift'] else None)
+                from chempy.kinetics import _rates as KR
+                named = {('temperature', False, False): 'TPoly', ('temperature', True, False): 'RTPoly',
+                         ('log10_temperature', False, False): 'Log10TPoly', ('temperature', False, True): 'ShiftedTPoly',
+                         ('log10_temperature', False, True): 'ShiftedLog10TPoly', ('temperature', True, True): 'ShiftedRTPoly'}
+                nm = named.get(key[1:])
+                if nm is not None:
+                    cl = getattr(KR, nm)           # the conventions module: the same factory calls, made by the library itself
+                elif k['shift']:
+                    cl = E.create_Poly(k['param'], reciprocal=bool(k['recip']), shift=True, name='SPoly_' + k['param'])
+                else:
+                    cl = E.create_Poly(k['param'], reciprocal=bool(k['recip']))
                 self.poly[key] = cl
                 self.tags[cl] = 'Poly:%s:%d:%d' % (k['param'], k['recip'], k['shift'])
             return self.poly[key]
         if c == 'Piecewise':
             key = ('Piecewise', k['param'])
             if key not in self.poly:
-                cl = E.create_Piecewise(k['param'])
+                from chempy.kinetics import _rates as KR
+                cl = KR.TPiecewise if k['param'] == 'temperature' else E.create_Piecewise(k['param'])
                 self.poly[key] = cl
                 self.tags[cl] = 'Piecewise:%s' % k['param']
             return self.poly[key]
@@ -771,7 +800,7 @@ class C16(Property):
     def generate(self, rng, n, tier):
         cases = []
         maxd = 3 if tier == 'quick' else 6
-        n_tree = int(n * 0.60)
+        n_tree = int(n * 0.54)
         for i in range(n_tree):
             mode = 'rat' if i % 2 == 0 else 'float'
             d = rng.randint(1, maxd)
@@ -799,6 +828,16 @@ class C16(Property):
         for i in range(int(n * 0.04)):
             cases.append(self._override0_case(rng, i))
         for i in range(int(n * 0.03)):
+            cases.append(self._eqeq_case(rng, 'rat' if i % 2 == 0 else 'float', tier))
+        for i in range(max(len(API_TEMPLATES), int(n * 0.03))):
+            cases.append({'kind': 'api', 'tmpl': API_TEMPLATES[i % len(API_TEMPLATES)],
+                          'a': [float('%.5g' % rng.uniform(0.5, 9)) for _ in range(4)], 'T': float('%.7g' % rng.uniform(200, 2000)),
+                          'conc': {sub: float('%.5g' % math.exp(rng.uniform(-4, 1))) for sub in SUBST},
+                          'nu': [rng.randint(1, 2), rng.randint(1, 2), rng.randint(1, 3)]})
+        for i in range(max(len(SYMPY_OPERANDS), int(n * 0.02))):
+            cases.append({'kind': 'sympyop', 'operand': SYMPY_OPERANDS[i % len(SYMPY_OPERANDS)], 'op': rng.choice(['add', 'sub', 'mul', 'div', 'pow']),
+                          'c': float('%.5g' % rng.uniform(0.5, 4)), 'vals': {v: float('%.5g' % rng.uniform(0.5, 3)) for v in 'xyz'}})
+        for i in range(int(n * 0.03)):
             k = rng.choice([-1, 1]) * rng.randint(0, 30)
             cases.append({'kind': 'smallsum', 'tmpl': i % 4, 'k': k, 'T': float('%.7g' % rng.uniform(200, 2000)),
                           'A': float('%.6ge%d' % (rng.uniform(1, 9), k)), 'E': float('%.6g' % rng.uniform(100, 3000)),
@@ -810,6 +849,32 @@ class C16(Property):
         while len(cases) < n:
             cases.append(self._rxnrate_case(rng))
         return cases
+
+    def _eqeq_case(self, rng, mode, tier):
+        """MassActionEq / GibbsEqConst .equilibrium_equation(variables, equilibrium=Equilibrium(reac, prod))"""
+        g = Gen(rng, mode, tier)
+        g.mag = 0
+        rat = mode == 'rat'
+        r = rng.random()
+        if rat or r < 0.6:
+            a = g.arg(1)
+            if a[0]['t'] == 'num' and isinstance(a[0]['v'], list) and rng.random() < 0.5:
+                pass
+            prog, _ = g.new('MassActionEq', [a], 'Q')
+        else:
+            g.var('temperature')
+            prog, _ = g.new('GibbsEqConst', [({'t': 'num', 'v': float('%.6g' % rng.uniform(-3000, 3000))}, 'F'),
+                                             ({'t': 'num', 'v': float('%.6g' % rng.uniform(-5, 5))}, 'F')], 'F')
+        subs = rng.sample(SUBST, rng.randint(2, 3))
+        k = rng.randint(1, len(subs) - 1)
+        reac = [[s_, rng.randint(1, 3)] for s_ in subs[:k]]
+        prod = [[s_, rng.randint(1, 3)] for s_ in subs[k:]]
+        for s_ in subs:
+            g.var(s_)
+        names = sorted(g.vars)
+        if rng.random() < 0.05 and names:
+            names.remove(rng.choice(names))   # missing variable: KeyError
+        return {'kind': 'eqeq', 'num': mode, 'prog': prog, 'vars': [[n_, g.vars[n_]] for n_ in names], 'reac': reac, 'prod': prod}
 
     def _radiolytic_case(self, rng):
         """multi-dose-rate Radiolytic classes, names in ARBITRARY order, distinct yields and dose rates"""
@@ -881,6 +946,12 @@ class C16(Property):
             return {'op': 'eval', 'num': c['num'], 'prog': prog, 'vars': vars_, 'rxn': c['rxn']}
         if k == 'param':
             return {'op': c['which'], 'a': [f2b(x) for x in c['a']]}
+        if k == 'eqeq':
+            if c['num'] == 'float':
+                prog, vars_ = map_nums(c['prog'], f2b), [[n, f2b(v)] for n, v in c['vars']]
+            else:
+                prog, vars_ = c['prog'], c['vars']
+            return {'op': 'eqeq', 'num': c['num'], 'prog': prog, 'vars': vars_, 'reac': c['reac'], 'prod': c['prod']}
         return None
 
     # ---- real code -----------------------------------------------------------------------------------------
@@ -910,6 +981,19 @@ class C16(Property):
             except Exception as e:
                 v = '!py:' + exc_name(e)
             return s + ' = ' + v
+        if mc['op'] == 'eqeq':
+            from chempy import Equilibrium
+            prog, vars_ = self._decode(mc)
+            real = Real(mc['num'])
+            try:
+                obj = real.build(prog)
+            except Exception as e:
+                return '!py:' + exc_name(e)
+            try:
+                eq = Equilibrium({k: v for k, v in mc['reac']}, {k: v for k, v in mc['prod']})
+                return value_text(mc['num'], obj.equilibrium_equation(vars_, backend=_m, equilibrium=eq))
+            except Exception as e:
+                return '!py:' + exc_name(e)
         a = [b2f(x) for x in mc['a']]
         try:
             if mc['op'] == 'arrhenius':
@@ -932,6 +1016,15 @@ class C16(Property):
         return parts[0::2], [b2f(x) for x in parts[1::2]]
 
     def same(self, mc, io, mo):
+        if mc['op'] == 'eqeq':
+            if not isinstance(io, str) or not isinstance(mo, str):
+                return False
+            if mc['num'] == 'rat' or io.startswith('!') or mo.startswith('!'):
+                return io == mo
+            try:
+                return close(b2f(io[1:]), b2f(mo[1:]), self.float_tol)
+            except Exception:
+                return False
         if mc['op'] != 'eval':
             if not isinstance(io, float):
                 return False
@@ -1232,6 +1325,247 @@ class C16(Property):
             return self._oracle_override0(c)
         if k == 'smallsum':
             return self._oracle_smallsum(c)
+        if k == 'api':
+            return self._oracle_api(c)
+        if k == 'eqeq':
+            return self._oracle_eqeq(c)
+        if k == 'sympyop':
+            return self._oracle_sympyop(c)
+        return None
+
+    def _oracle_eqeq(self, c):
+        """equilibrium_equation = K - prod(products ** nu) / prod(reactants ** nu), K = the arithmetic meaning of the instance"""
+        from chempy import Equilibrium
+        import numpy as np
+        mode = c['num']
+        real = Real(mode)
+        prog = map_nums(c['prog'], real.num)
+        vars_ = {n: (real.num(v) if mode == 'float' else Fraction(real.num(v))) for n, v in c['vars']}
+        self._maxabs, self._refusal_ok = 0.0, False
+        try:
+            K = self.meaning(prog, vars_, None, math)
+            if not c['reac'] and not c['prod']:
+                return None
+            q = 1
+            for k, v in c['prod']:
+                q = q * vars_[k] ** v
+            for k, v in c['reac']:
+                q = q / vars_[k] ** v
+        except (Skip, KeyError, ZeroDivisionError, OverflowError, ValueError):
+            return None
+        want = K - q
+        try:
+            obj = real.build(c['prog'])
+            eq = Equilibrium({k: v for k, v in c['reac']}, {k: v for k, v in c['prod']})
+            for bn, be in (('math', math), ('numpy', np)):
+                got = obj.equilibrium_equation(vars_, backend=be, equilibrium=eq)
+                if not self._eq(mode, got, want):
+                    return '%s.equilibrium_equation(%r) with backend %s = %r, K - quotient = %r' % (real.show(obj), c['vars'], bn, got, want)
+        except Exception as e:
+            return 'equilibrium_equation raised %s: %s' % (exc_name(e), str(e)[:100])
+        return None
+
+    def _oracle_sympyop(self, c):
+        """`expr op <sympy object>`: `_implicit_conversion` turns a sympy Symbol / Float / two-argument Add, Mul / Pow into the
+        corresponding Expr; evaluation with numbers then gives the arithmetic meaning.  Documented refusals (NotImplementedError):
+        sympy Integer / Rational atoms, Add / Mul with more than two arguments."""
+        import sympy, operator
+        from chempy.util._expr import Symbol, Expr
+        vals, cc = c['vals'], c['c']
+        y, z = sympy.Symbol('y'), sympy.Symbol('z')
+        kind = c['operand']
+        if kind in SYMPY_PENDING:
+            return None
+        obj, val, refuse = {
+            'symbol': (y, vals['y'], False), 'float': (sympy.Float(cc), cc, False), 'add2': (y + z, vals['y'] + vals['z'], False),
+            'mul2': (y * z, vals['y'] * vals['z'], False), 'mulfloat': (sympy.Float(cc) * y, cc * vals['y'], False),
+            'pow': (y ** z, vals['y'] ** vals['z'], False), 'powfloat': (y ** sympy.Float(2.0), vals['y'] ** 2.0, False),
+            'left': (y, vals['y'], False), 'mul3': (sympy.Float(cc) * y * z, None, True),
+            'integer': (sympy.Integer(2) * y, None, True), 'rational': (sympy.Rational(1, 2), None, True),
+            'nested': ((y + sympy.Float(cc)) * z, (vals['y'] + cc) * vals['z'], False)}[kind]
+        x = Symbol(unique_keys=('x',))
+        f = {'add': operator.add, 'sub': operator.sub, 'mul': operator.mul, 'div': operator.truediv, 'pow': operator.pow}[c['op']]
+        if kind == 'left':
+            # limitation (refusal, no wrong value): a sympy object as LEFT operand -- sympy's sympify calls Expr.__float__ =
+            # float(self({})), which raises KeyError for an unbound Symbol instead of TypeError, so __radd__ is never reached
+            try:
+                e = f(obj, x)
+            except KeyError:
+                return None
+            except Exception as ex:
+                return '%s %s x raised %s (the refusal on /repo is KeyError)' % (obj, c['op'], exc_name(ex))
+            if not isinstance(e, Expr):
+                return '%s %s x gives %r, not an Expr' % (obj, c['op'], e)
+            got = float(e(dict(vals)))
+            want = f(val, vals['x'])
+            return None if close(got, want, 1e-9) else '(%s %s x)(%r) = %r, arithmetic meaning %r' % (obj, c['op'], vals, got, want)
+        try:
+            e = f(x, obj)
+        except NotImplementedError as ex:
+            return None if refuse else 'x %s %s raised NotImplementedError (%s)' % (c['op'], obj, str(ex)[:60])
+        except Exception as ex:
+            return 'x %s %s raised %s: %s' % (c['op'], obj, exc_name(ex), str(ex)[:80])
+        if refuse:
+            return 'x %s %s was converted (%r) although the conversion is documented as not implemented' % (c['op'], obj, e)
+        if not isinstance(e, Expr):
+            return 'x %s %s is not an Expr: %r' % (c['op'], obj, e)
+        want = f(vals['x'], val)
+        import numpy as np
+        for bn, be in (('math', math), ('numpy', np), ('sympy', sympy)):
+            try:
+                got = float(e(dict(vals), backend=be))
+            except Exception as ex:
+                return '(x %s %s)(%r, backend=%s) raised %s' % (c['op'], obj, vals, bn, exc_name(ex))
+            if not close(got, want, 1e-9):
+                return '(x %s %s)(%r, backend=%s) = %r, arithmetic meaning %r' % (c['op'], obj, vals, bn, got, want)
+        return None
+
+    def _oracle_api(self, c):
+        """the remaining public entry points of the anchored classes, each judged against its defining formula / documented refusal"""
+        import warnings, numpy as np
+        from chempy import Reaction, Equilibrium
+        from chempy.util._expr import Expr, UnaryWrapper, Constant, Symbol, Log10, Exp
+        from chempy.kinetics.rates import MassAction, Arrhenius, Eyring, mk_Radiolytic, RateExpr
+        from chempy.thermodynamics.expressions import MassActionEq, GibbsEqConst
+        warnings.filterwarnings('ignore', category=DeprecationWarning)
+        t, a, T, conc, nu = c['tmpl'], c['a'], c['T'], c['conc'], c['nu']
+        rxn = Reaction({'A': nu[0], 'B': nu[1]}, {'C': nu[2]})
+        prod = conc['A'] ** nu[0] * conc['B'] ** nu[1]
+        v = dict(conc, temperature=T)
+
+        def bad(msg):
+            return 'api/%s: %s' % (t, msg)
+        try:
+            if t == 'arg_by_name':          # Expr.arg(variables, 'name') = the argument of that name
+                arr = Arrhenius([a[0], a[1] * 100], unique_keys=('kA',))
+                for i, nm in enumerate(Arrhenius.argument_names):
+                    if arr.arg(v, nm) != arr.all_args(v)[i]:
+                        return bad('arg(%r) = %r, all_args()[%d] = %r' % (nm, arr.arg(v, nm), i, arr.all_args(v)[i]))
+                if arr.arg(dict(v, kA=a[2]), 'A') != a[2]:
+                    return bad('arg("A") ignores the override')
+            elif t == 'eq':                 # Expr.__eq__: same class + same arguments (key-only: same keys)
+                mk = lambda: [Arrhenius([a[0], a[1]]), MassAction([a[0]]), MassAction.fk('kf'), Constant(a[0]), Arrhenius([a[0], a[1]], ('p', 'q'))]
+                l1, l2 = mk(), mk()
+                for i, x in enumerate(l1):
+                    for j, y in enumerate(l2):
+                        if (x == y) != (i == j or {i, j} == {0, 4}):
+                            return bad('%r == %r is %r' % (x, y, x == y))
+                if MassAction.fk('kf') == MassAction.fk('kb') or MassAction.fk('kf') == MassAction([a[0]]) or \
+                        MassAction([a[0]]) == MassAction.fk('kf') or Arrhenius([a[0], a[1]]) == Arrhenius([a[0], a[2]]):
+                    return bad('unequal expressions compare equal')
+            elif t == 'rate_coeff':         # rate_coeff of combinations = the same combination of the rate coefficients
+                m1, m2 = MassAction([a[0]]), MassAction(Arrhenius([a[1], a[2] * 100]))
+                k1, k2 = a[0], a[1] * math.exp(-a[2] * 100 / T)
+                for e, want in ((m1 + m2, k1 + k2), (m1 - m2, k1 - k2), (-m1, -k1), (m2 + Constant(a[3]), k2 + a[3])):
+                    got = e.rate_coeff(v, reaction=rxn)
+                    got = got[0] if isinstance(got, tuple) else got
+                    if not close(float(got), want, 1e-12):
+                        return bad('%r.rate_coeff = %r, expected %r' % (e, got, want))
+                got = Log10([MassAction([a[0]])]).rate_coeff(v, backend=math)
+                if not close(float(got), math.log10(a[0]), 1e-12):
+                    return bad('Log10([MassAction]).rate_coeff = %r' % (got,))
+            elif t == 'named_keys':
+                if MassAction([a[0]], ['kf']).get_named_keys() != ('kf',) or MassAction([a[0]]).get_named_keys() is not None:
+                    return bad('get_named_keys of a MassAction with / without unique keys')
+                if tuple(MassAction(Symbol(unique_keys=('kf',))).get_named_keys() or ()) not in ((), ('kf',)):
+                    return bad('get_named_keys of MassAction(Symbol)')
+            elif t in ('ma_from_callback', 'ma_subclass_from_callback'):
+                # a rate constant given by a callback: value = callback(args, params) * conc product
+                if t == 'ma_from_callback':
+                    F = MassAction.from_callback(lambda args, T_, backend=math, **kw: args[0] * backend.exp(-args[1] / T_),
+                                                 parameter_keys=('temperature',), nargs=2)
+                else:
+                    F = MassAction.subclass_from_callback(
+                        lambda variables, all_args, backend=math, **kw: all_args[0] * backend.exp(-all_args[1] / variables['temperature']),
+                        cls_attrs=dict(parameter_keys=('temperature',), nargs=2))
+                ma = F([a[0], a[1] * 100])
+                want = a[0] * math.exp(-a[1] * 100 / T) * prod
+                for be in (math, np):
+                    got = float(ma(v, backend=be, reaction=rxn))
+                    if not close(got, want, 1e-12):
+                        return bad('value %r, callback * concentration product = %r' % (got, want))
+                if not isinstance(ma, MassAction):
+                    return bad('not a MassAction')
+            elif t == 'uw_from_callback':   # UnaryWrapper.from_callback: the wrapper around a callback expression; scaling acts inside
+                class W1(UnaryWrapper):
+                    nargs = 1
+                F = W1.from_callback(lambda args, x, backend=math, **kw: args[0] * x, parameter_keys=('x',), nargs=1)
+                w = F([a[0]])
+                if not isinstance(w, UnaryWrapper) or len(w.args) != 1:
+                    return bad('not a UnaryWrapper around one expression')
+                if not close(float(w.args[0]({'x': a[1]})), a[0] * a[1], 1e-12):
+                    return bad('wrapped callback value')
+                w2 = w * 2
+                if not isinstance(w2, UnaryWrapper) or not close(float(w2.args[0]({'x': a[1]})), 2 * a[0] * a[1], 1e-12):
+                    return bad('(wrapper * 2) does not wrap 2 * inner')
+            elif t == 'uw_nargs':           # refusal: UnaryWrapper arithmetic needs nargs == 1
+                class W2(UnaryWrapper):
+                    nargs = 2
+                for f in (lambda: W2([a[0], a[1]]) * 2, lambda: W2([a[0], a[1]]) / 2, lambda: 2 / W2([a[0], a[1]])):
+                    try:
+                        f()
+                        return bad('arithmetic on a UnaryWrapper with nargs = 2 was not refused')
+                    except ValueError:
+                        pass
+            elif t == 'init_refusals':      # the ValueErrors of Expr.__init__
+                Unb = Expr.from_callback(lambda args, backend=math, **kw: sum(args), nargs=-1, argument_defaults=(1,), argument_names=('p', Ellipsis))
+                TooMany = Expr.from_callback(lambda args, backend=math, **kw: args[0], argument_names=('p',), argument_defaults=(1, 2))
+                for f, what in ((lambda: Unb([a[0]]), 'defaults with an unbounded number of arguments'),
+                                (lambda: TooMany([a[0]]), 'more defaults than arguments'),
+                                (lambda: Arrhenius([a[0], a[1]], unique_keys=('p', 'q', 'r')), 'more unique keys than arguments'),
+                                (lambda: Arrhenius([a[0]]), 'too few arguments'), (lambda: Arrhenius([a[0], a[1], a[2]]), 'too many arguments')):
+                    try:
+                        f()
+                        return bad('%s: not refused' % what)
+                    except ValueError:
+                        pass
+                if MassAction('kname')(dict(v, kname=a[0]), reaction=rxn) != a[0] * prod and \
+                        not close(float(MassAction('kname')(dict(v, kname=a[0]), reaction=rxn)), a[0] * prod, 1e-12):
+                    return bad("MassAction('kname') does not look its str argument up in the variables")
+            elif t == 'g_value':            # deprecated single-yield accessor
+                R1 = mk_Radiolytic()
+                if R1([a[0] * 1e-7]).g_value({}) != a[0] * 1e-7 or R1([a[0]], ['g']).g_value({'g': a[1]}) != a[1]:
+                    return bad('g_value')
+            elif t in ('equilibrium', 'gibbs_equilibrium', 'eq_from_callback'):
+                # MassActionEq.equilibrium_equation = K - prod(products^nu) / prod(reactants^nu); eq_const / __call__ = K
+                eq = Equilibrium({'A': nu[0], 'B': nu[1]}, {'C': nu[2]})
+                quot = conc['C'] ** nu[2] / (conc['A'] ** nu[0] * conc['B'] ** nu[1])
+                if t == 'equilibrium':
+                    me, K = MassActionEq([a[0]]), a[0]
+                elif t == 'gibbs_equilibrium':
+                    me, K = GibbsEqConst([a[0] * 300, a[1]]), math.exp(a[1] - a[0] * 300 / T)
+                else:
+                    F = MassActionEq.from_callback(lambda args, T_, backend=math, **kw: args[0] * backend.exp(-args[1] / T_),
+                                                   parameter_keys=('temperature',), nargs=2)
+                    me, K = F([a[0], a[1] * 100]), a[0] * math.exp(-a[1] * 100 / T)
+                for be in (math, np):
+                    if not close(float(me(v, backend=be)), K, 1e-12) or not close(float(me.eq_const(v, backend=be)), K, 1e-12):
+                        return bad('eq_const = %r, expected %r' % (me(v, backend=be), K))
+                    got = float(me.equilibrium_equation(v, backend=be, equilibrium=eq))
+                    if not close(got, K - quot, 1e-12, 1e-12 * max(K, quot)):
+                        return bad('equilibrium_equation = %r, K - quotient = %r' % (got, K - quot))
+                import sympy
+                sv = {k_: sympy.Symbol('v_' + k_, positive=True) for k_ in v}
+                se = me.equilibrium_equation(sv, backend=sympy, equilibrium=eq).subs({sv[k_]: sympy.Float(x_, 30) for k_, x_ in v.items()})
+                if not close(float(se), K - quot, 1e-9, 1e-12 * max(K, quot)):
+                    return bad('equilibrium_equation symbolically then substituted = %r, K - quotient = %r' % (float(se), K - quot))
+            else:                           # Reaction.rate_expr(): an Expr param is used as it is, a str names the rate constant, a number is it
+                if t == 'rxn_param_expr':
+                    par, k, extra = MassAction(Arrhenius([a[0], a[1] * 100])), a[0] * math.exp(-a[1] * 100 / T), {}
+                elif t == 'rxn_param_str':
+                    par, k, extra = 'k_fwd', a[0], {'k_fwd': a[0]}
+                else:
+                    par, k, extra = a[0], a[0], {}
+                r = Reaction({'A': nu[0], 'B': nu[1]}, {'C': nu[2]}, par)
+                ratex = r.rate_expr()
+                if not isinstance(ratex, MassAction) or (t == 'rxn_param_expr' and ratex is not par):
+                    return bad('rate_expr() = %r' % (ratex,))
+                rates = r.rate(dict(v, **extra))
+                for sub, net in (('A', -nu[0]), ('B', -nu[1]), ('C', nu[2])):
+                    if not close(float(rates[sub]), k * prod * net, 1e-12):
+                        return bad('rate()[%s] = %r, k * prod * net = %r' % (sub, rates[sub], k * prod * net))
+        except Exception as e:
+            return bad('raised %s: %s' % (exc_name(e), str(e)[:120]))
         return None
 
     def _oracle_smallsum(self, c):
@@ -1877,6 +2211,12 @@ class C16(Property):
             return 'override0:%s:%s' % (c['cls'], c['val'])
         if k == 'smallsum':
             return 'smallsum:%d:1e%+03d' % (c['tmpl'], 10 * (c['k'] // 10))
+        if k == 'api':
+            return 'api:' + c['tmpl']
+        if k == 'eqeq':
+            return 'eqeq:%s:%s' % (c['num'], c['prog']['k']['c'])
+        if k == 'sympyop':
+            return 'sympyop:%s:%s' % (c['operand'], c['op'])
         return 'rxnrate:' + c.get('which', '?')
 
     def extra_search(self, rng, tier, hints):
